@@ -382,6 +382,7 @@ def check_structure(case, out):
     out.sample = {"names": names, "intra": t["intra"], "inter": t["inter"]}
 
 
+THOROUGH_SCALE = 7  # thorough-tier example counts are n["thorough"] x this (one thorough run then takes roughly 5-10 minutes on 16 cores)
 SUBCHECKS = [
     Sub("inference", check_inference, strategy=lambda tier: dbn_case(), n={"quick": 60, "thorough": 1000},
         shards={"quick": 10, "thorough": 16}, doc="DBNInference.query / backward_inference (smoothing) and forward_inference (filtering) vs brute force on the unrolled network"),
